@@ -136,6 +136,9 @@ Qed.
 Lemma existsb_ext_eq : forall A (f g : A -> bool) l, (forall x, f x = g x) -> existsb f l = existsb g l.
 Proof. induction l; simpl; intros; auto. rewrite H, IHl; auto. Qed.
 
+Lemma existsb_ext_eq_in : forall A (f g : A -> bool) l, (forall x, In x l -> f x = g x) -> existsb f l = existsb g l.
+Proof. induction l; simpl; intros; auto. rewrite H, IHl; auto. Qed.
+
 (* ---------------------------------------------------------------- association lists *)
 
 Section AssocLemmas.
